@@ -563,6 +563,8 @@ struct SCase {
     side: Vec<Side>,
     /// Aux.items (an array), Aux.gone and Aux.note exist before the query
     aux_present: bool,
+    /// the query is `NOT <goal>`
+    negated: bool,
 }
 
 impl SCase {
@@ -579,6 +581,8 @@ impl SCase {
                 .collect(),
         );
         j["aux_facts_present_before_the_query"] = json!(self.aux_present);
+        j["query_text"] = json!(self.text());
+        j["negated"] = json!(self.negated);
         j
     }
     fn from_json(j: &Json) -> Option<SCase> {
@@ -587,7 +591,14 @@ impl SCase {
         for s in j.get("side_effect_actions")?.as_array()? {
             side.push(Side { rule: s.get("rule_index")?.as_u64()? as usize, kind: s.get("kind")?.as_u64()? as u8, first: s.get("before_the_conclusions")?.as_bool()? });
         }
-        Some(SCase { q, side, aux_present: j.get("aux_facts_present_before_the_query")?.as_bool()? })
+        Some(SCase { q, side, aux_present: j.get("aux_facts_present_before_the_query")?.as_bool()?, negated: j.get("negated").and_then(|v| v.as_bool()).unwrap_or(false) })
+    }
+    fn text(&self) -> String {
+        if self.negated {
+            format!("NOT {}", self.q.goal.text())
+        } else {
+            self.q.goal.text()
+        }
     }
 }
 
@@ -619,14 +630,14 @@ fn run_scase_once(c: &SCase, rules: &[Rule]) -> Option<QObs> {
         f.set("Aux.gone", Value::Integer(1));
         f.set("Aux.note", Value::Integer(0));
     }
-    Some(run_query_on(&mut engine, &mut f, &c.q.goal.text()))
+    Some(run_query_on(&mut engine, &mut f, &c.text()))
 }
 
 fn run_scase(c: &SCase, rules: &[Rule], reps: usize) -> (Option<String>, Option<QObs>) {
     let mut last = (None, None);
     for _ in 0..reps.max(1) {
         let Some(obs) = run_scase_once(c, rules) else { return (None, None) };
-        let v = judge_query(&c.q, &obs);
+        let v = judge_query(&c.q, &obs).map(|d| if c.negated { d.replacen("query `", "query `NOT ", 1) } else { d });
         let hit = v.is_some();
         last = (v, Some(obs));
         if hit {
@@ -652,6 +663,8 @@ fn sviolation(c: &SCase, detail: &str, obs: &QObs) -> Violation {
         }
         kinds.sort();
         format!("side-effect-action-not-undone:{}", kinds.join("+"))
+    } else if c.negated {
+        "negated-query".to_string()
     } else {
         query_cause(&c.q, obs).to_string()
     };
@@ -662,9 +675,16 @@ fn check_scase(c: &SCase, rules: &[Rule], st: &mut Stats) {
     let reps = qreps(&c.q, true);
     let (v, obs) = run_scase(c, rules, reps);
     st.eval();
-    st.count("queries_over_rules_with_side_effect_actions");
+    st.count(if c.negated { "negated_queries" } else { "queries_over_rules_with_side_effect_actions" });
     let Some(o) = obs else { return };
-    if o.provable() == Some(false) {
+    if c.negated && o.provable() == Some(false) {
+        st.count("negated_queries_not_provable_(facts_compared)");
+        let clo = closure(&c.q.kb, &c.q.facts);
+        if c.q.kb.rules.iter().any(|r| clo.fireable.contains(&r.name)) {
+            st.count("failed_negated_queries_with_a_fireable_rule");
+            st.nontrivial(hash_of(c));
+        }
+    } else if o.provable() == Some(false) {
         st.count("side_effect_queries_not_provable_(facts_compared)");
         let clo = closure(&c.q.kb, &c.q.facts);
         if c.side.iter().any(|s| c.q.kb.rules.get(s.rule).map(|r| clo.fireable.contains(&r.name)).unwrap_or(false)) {
@@ -733,7 +753,7 @@ impl Check for C10 {
         "C10"
     }
     fn rule(&self) -> String {
-        "(b) Facts API, exhaustive: ALL sequences of length L (5 quick, 6 thorough) over the 20-operation alphabet begin / commit / rollback / set(k, 1 | {f:0}) / set_nested(k.f, 1 | 2) / remove(k), k in {a,b,c}, plus set / remove of the FLAT key \"a.x\" (a name that extends the key a), from 2 initial stores ({} and {a:{f:0}, b:0}); the whole store is compared with the stack-of-snapshots model after every operation, so every prefix (every shorter sequence) is checked too. random: lengths 6..=10 over the same alphabet with begin/commit/rollback weighted up. A sequence is non-trivial when it rolls back at least one frame in which the store had changed; distinct by (initial store, operations). (a) queries: the C09 generator (Horn KBs of 1..=8 rules from GRL text, chains to depth 6 with wrong-value conclusions, dead ends, cycles, parents with two sub-goals; 14 queries per KB; dfs/bfs/iterative; max_depth 0..=6; max_solutions 1 or 3); every answer `provable == false` is judged; non-trivial when some candidate rule of the goal is fireable in the reference closure (the attempt could derive something before failing). (a2) one in three of those queries is asked again over the same rules with 1-3 side-effect actions added to the parsed rules (Append to an array, Retract of a key, Set of an unrelated key; before or after the rule's conclusions; the touched keys Aux.* occur in no condition; present before the query in 3/4 of the cases).".into()
+        "(b) Facts API, exhaustive: ALL sequences of length L (5 quick, 6 thorough) over the 20-operation alphabet begin / commit / rollback / set(k, 1 | {f:0}) / set_nested(k.f, 1 | 2) / remove(k), k in {a,b,c}, plus set / remove of the FLAT key \"a.x\" (a name that extends the key a), from 2 initial stores ({} and {a:{f:0}, b:0}); the whole store is compared with the stack-of-snapshots model after every operation, so every prefix (every shorter sequence) is checked too. random: lengths 6..=10 over the same alphabet with begin/commit/rollback weighted up. A sequence is non-trivial when it rolls back at least one frame in which the store had changed; distinct by (initial store, operations). (a) queries: the C09 generator (Horn KBs of 1..=8 rules from GRL text, chains to depth 6 with wrong-value conclusions, dead ends, cycles, parents with two sub-goals; 14 queries per KB; dfs/bfs/iterative; max_depth 0..=6; max_solutions 1 or 3); every answer `provable == false` is judged; non-trivial when some candidate rule of the goal is fireable in the reference closure (the attempt could derive something before failing). (a2) one in three of those queries is asked again over the same rules with 1-3 side-effect actions added to the parsed rules (Append to an array, Retract of a key, Set of an unrelated key; before or after the rule's conclusions; the touched keys Aux.* occur in no condition; present before the query in 3/4 of the cases). (a3) one query in three is also asked negated (`NOT goal`, which fails exactly when the goal can be derived, i.e. after rules ran).".into()
     }
     fn assumptions(&self) -> Vec<String> {
         vec![
@@ -852,7 +872,13 @@ impl Check for C10 {
                         // the same query over the same rules carrying 1-3 side-effect actions
                         let nside = 1 + rng.below(3);
                         let side = (0..nside).map(|_| Side { rule: rng.below(plan.kb.rules.len()), kind: rng.below(3) as u8, first: rng.bool() }).collect();
-                        let sc = SCase { q: case.clone(), side, aux_present: rng.chance(3, 4) };
+                        let sc = SCase { q: case.clone(), side, aux_present: rng.chance(3, 4), negated: false };
+                        check_scase(&sc, &parsed, st);
+                    }
+                    if rng.chance(1, 3) {
+                        // `NOT goal`: it fails exactly when the goal can be derived, i.e. after rules ran
+                        let g = if rng.bool() { case.goal.clone() } else { gen_goal(rng, &plan) };
+                        let sc = SCase { q: QCase { goal: g, ..case.clone() }, side: vec![], aux_present: false, negated: true };
                         check_scase(&sc, &parsed, st);
                     }
                 }
